@@ -179,6 +179,21 @@ Proof.
   - destruct k; try discriminate. exists s. split; reflexivity.
 Qed.
 
+(* bool keys *)
+Theorem key_rt_bool kn k :
+  n_typ kn = typeBasic -> n_typn kn = "bool" -> n_typu kn = "bool" ->
+  wtb kn k = true -> k <> VPtr None -> key_rt kn k.
+Proof.
+  destruct kn as [ty tn tu nm pk pki p chld mk mv sl hb hc]. cbn [n_typ n_typn n_typu].
+  intros -> -> -> WT NN. cbn [wtb] in WT. change (skind_of_name "bool") with (Some SBool) in WT.
+  unfold key_rt, render_key, conv_key, node_skind. cbn [n_ptr n_typn n_typu].
+  change (skind_of_name "bool") with (Some SBool).
+  destruct p.
+  - destruct k as [| | | | | | | |[x|]]; try discriminate; [|congruence].
+    destruct x as [b| | | | | | | |]; try discriminate. destruct b; eexists; split; reflexivity.
+  - destruct k as [b| | | | | | | |]; try discriminate. destruct b; eexists; split; reflexivity.
+Qed.
+
 (* the hypothesis of the main theorem for maps with string or integer keys and no nil pointer key *)
 Theorem keys_ok_plain kn vn kvs :
   n_typ kn = typeBasic ->
